@@ -242,7 +242,7 @@ class Builder:
         footer = Comment(f'Generated by: dznpy/adv_shell v{VERSION}')
 
         return GeneratedContent(filename=f'{cpp.target_file_basename}.hh',
-                                contents=str(TextBlock([header, cpp.namespace, footer])))
+                                contents=str(TextBlock([header, self._namespaced(cpp.namespace), footer])))
 
     def _create_sourcefile(self) -> GeneratedContent:
         """Generate a c++ sourcefile according to the current recipe."""
@@ -279,7 +279,14 @@ class Builder:
         footer = Comment(f'Generated by: dznpy/adv_shell v{VERSION}')
 
         return GeneratedContent(filename=f'{cpp.target_file_basename}.cc',
-                                contents=str(TextBlock([header, cpp.namespace, footer])))
+                                contents=str(TextBlock([header, self._namespaced(cpp.namespace), footer])))
+
+    @staticmethod
+    def _namespaced(namespace: cpp_gen.Namespace):
+        """Get the shell code wrapped in the namespace of the encapsulee. For an encapsulee in the
+        global namespace the bare contents are returned: an empty cpp_gen.Namespace renders the
+        *unnamed* namespace, which would give the shell internal linkage."""
+        return namespace if namespace.ns_ids.items else namespace.contents
 
     def _create_creator_info_overview(self) -> Optional[str]:
         """Create the creator information overview"""
